@@ -126,6 +126,17 @@ def _attr_of(e):
         e["op"], e.get("attr"))
 
 
+def _iterable(values, arg_as):
+    """extend / += take any iterable, like list does: a list, a tuple or a one-shot iterator."""
+    if arg_as == "tuple":
+        return tuple(values)
+    if arg_as == "iterator":
+        return iter(values)
+    if arg_as == "generator":
+        return (v for v in values)
+    return values
+
+
 def apply_live(objs, e, spec_before):
     """Apply the edit to the live model through the public API. ``objs`` is updated for add/remove of patterns."""
     op = e["op"]
@@ -140,9 +151,9 @@ def apply_live(objs, e, spec_before):
         elif m == "insert":
             lst.insert(args[0], objs[args[1]])
         elif m == "extend":
-            lst.extend([objs[t] for t in args[0]])
+            lst.extend(_iterable([objs[t] for t in args[0]], e.get("arg_as")))
         elif m == "iadd":   # obj.attr += [...]  ==  __iadd__ then re-assignment of the same list
-            lst += [objs[t] for t in args[0]]
+            lst += _iterable([objs[t] for t in args[0]], e.get("arg_as"))
             setattr(obj, e["attr"], lst)
         elif m == "imul":
             lst *= args[0]
